@@ -333,8 +333,15 @@ pub fn run_transition_h(
     let mark = reg(|r| r.drop_log.len());
     let c0 = counts();
     let raw_pre = crate::faults::raw_bytes(ex.cr());
+    crate::trap::quarantine_begin();
     let ret = apply_caught(&mut ex, op);
     let raw_post = crate::faults::raw_bytes(ex.cr());
+    // memory the operation freed stays poisoned and held back until here; only the
+    // operation itself ran in between
+    if let Some(why) = crate::trap::quarantine_end() {
+        st.rule("C07.write-after-free");
+        viol.push(v(p(7) | op_owner(op), "C07.write-after-free", why));
+    }
     let c1 = counts();
     let side = ex.side.clone();
 
@@ -620,6 +627,11 @@ pub fn run_transition_h(
             Op::Drain { .. } => props |= p(12),
             Op::Reserve { .. } | Op::TryReserve { .. } => props = p(13),
             _ => {}
+        }
+        if matches!(ret, Ret::Panicked(_)) {
+            // an operation that panics where the reference returns has not met its own
+            // specification either (e.g. shrink_to(usize::MAX) must be a no-op)
+            props |= op_owner(op);
         }
         viol.push(v(props, "C04.return", format!("returned {:?}, a sequential map returns {:?}", ret, r.ret)));
     }
